@@ -171,6 +171,12 @@ CHECKS['C25'] = _stack('Seeded search over scan and connect requests with right/
 CHECKS['C27'] = _stack('Seeded search over every LL control opcode (known, unknown, wrong length, responses and rejects) from the central, interleaved with peripheral initiated procedures, lost packets and full buffers: one specified '
                        'answer per request (content checked for feature/unknown/version), none for responses and rejects, one LL_VERSION_IND per connection, and an unanswered peripheral procedure ends the connection after 40 s (not earlier).',
                        _ST + 'request/response bookkeeping of the central')
+CHECKS['C28'] = _stack('Two link layer configurations with link encryption (legacy security manager, bond data base with two bonds, a characteristic that requires encryption; the radio keeps an encryption flag and key per direction and the '
+                       'simulated air decides from flags and keys of both sides whether a PDU can be decoded). Seeded search over encryption start and pause procedures of an honest central (right key, wrong key, unknown EDIV/Rand), single '
+                       'LL_START_ENC_RSP / LL_PAUSE_ENC_RSP PDUs out of order in plaintext or encrypted, pipelined LL_ENC_REQs, reads and writes of the protected characteristic, control PDUs with instants, loss, local disconnects and '
+                       'reconnects: LL_START_ENC_REQ only for a request with a known key, a reject for unknown ones, the link is reported encrypted (once per completed procedure) and the protected value is served or written only for ATT '
+                       'requests that arrived after a procedure in which the peripheral had committed its LL_START_ENC_REQ before the LL_START_ENC_RSP arrived, and not after a pause.', _ST + 'encryption procedure automaton, taint of the protected value',
+                       'The security tool box of these configurations is a stub (pairing itself is decided by sm_sim); keys come from the bond data base.')
 CHECKS['C29'] = _stack('Seeded search over connect requests, lost first events, updates, remote and local terminations, supervision and procedure timeouts: the recorded application callbacks of every connection must match '
                        'requested, (established | attempt timeout), changed*, closed(reason) exactly once and in order, and nothing may be reported for a connection that was not requested.', _ST + 'callback order grammar')
 
